@@ -69,6 +69,10 @@ def sig_of(params):
     return "|".join(f"{k}={params[k]!r}" for k in sorted(params))
 
 
+def lacks(sig, lack):
+    return sum(ord(c) for c in sig) % int(lack["mod"]) == int(lack["rem"]) % int(lack["mod"])
+
+
 def stop_at_of(sig):
     base = CONFIG.get("base_stop", 3)
     spread = CONFIG.get("spread", 3)
@@ -232,6 +236,8 @@ class BatchModel(Model):
         self.systems.add_system(Stopper(self))
         self.systems.add_system(Work(self))
         for name, freq in CONFIG.get("collectors_defined", [["col0", 1], ["col1", 2], ["col2", 1]]):
+            if CONFIG.get("lacking") and name == CONFIG["lacking"]["name"] and lacks(self.sig, CONFIG["lacking"]):
+                continue
             self.systems.add_system(collector_class()(name, self, frequency=freq))
 
 
